@@ -561,3 +561,96 @@ func nodeParamHelpers(w *World, root *FuncInfo) []*FuncInfo {
 	})
 	return out
 }
+
+// descentDominatesReturns (REC-DOM): in the functions that declare a named type, the recursion into the underlying
+// type (the call of the generator on <param>.Underlying) comes, on every path, before the return: a return that is
+// reached without it drops the declarations of the underlying type (the JSON routines of a basic type, the
+// declaration a renamed `Time` relies on), and the names the output mentions are never declared. Obligations: every
+// return of every function named codeForNamed that contains such a recursion on the current tree.
+func descentDominatesReturns(w *World, r *Result, rel string) int {
+	n := 0
+	for _, fi := range sortedFuncs(w) {
+		if w.Rel(fi.Obj.Pkg()) != rel || fi.Obj.Name() != "codeForNamed" || fi.Decl.Body == nil {
+			continue
+		}
+		info := fi.Pkg.TypesInfo
+		var descents []*ast.CallExpr
+		ast.Inspect(fi.Decl.Body, func(x ast.Node) bool {
+			call, ok := x.(*ast.CallExpr)
+			if !ok || len(call.Args) < 1 {
+				return true
+			}
+			fn := calleeOf(info, call)
+			if fn == nil || w.Funcs[fn] == nil || w.Funcs[fn].Pkg != fi.Pkg {
+				return true
+			}
+			// the generator, not the namer: the callee leads back to this function (generate -> codeForNamed)
+			back := false
+			for _, cf := range calleeClosure(w, w.Funcs[fn], 2) {
+				if cf == fi {
+					back = true
+				}
+			}
+			if !back {
+				return true
+			}
+			if sel, ok := ast.Unparen(call.Args[0]).(*ast.SelectorExpr); ok && sel.Sel.Name == "Underlying" {
+				if id := identOf(sel.X); id != nil && paramIndex(fi, objOf(info, id)) >= 0 {
+					descents = append(descents, call)
+				}
+			}
+			return true
+		})
+		if len(descents) == 0 {
+			continue
+		}
+		conds := func(x ast.Node) map[string]bool {
+			m := map[string]bool{}
+			for _, c := range condSetN(info, pathCondsNoLoop(fi, x), nil) {
+				m[c] = true
+			}
+			return m
+		}
+		ast.Inspect(fi.Decl.Body, func(x ast.Node) bool {
+			if _, isLit := x.(*ast.FuncLit); isLit {
+				return false
+			}
+			ret, ok := x.(*ast.ReturnStmt)
+			if !ok {
+				return true
+			}
+			// a return that yields only the type's own declaration, built without looking at the underlying type (the
+			// branded `number` of a named integer), mentions nothing the recursion would declare
+			if len(ret.Results) >= 1 {
+				inl := inlineLocals(info, fi.Decl)
+				txt := render(info, ret.Results[0], inl)
+				if _, isLit := ast.Unparen(ret.Results[0]).(*ast.CompositeLit); isLit && !strings.Contains(txt, "Underlying") {
+					return true
+				}
+			}
+			n++
+			rc := conds(ret)
+			dominated := false
+			for _, d := range descents {
+				if d.Pos() > ret.Pos() {
+					continue
+				}
+				sub := true
+				for c := range conds(d) {
+					if !rc[c] {
+						sub = false
+					}
+				}
+				if sub {
+					dominated = true
+				}
+			}
+			cons := "return at " + w.Pos(ret.Pos())
+			r.cond(dominated, "REC-DOM", fi.Name, cons, w.Pos(ret.Pos()),
+				"the recursion into the underlying type precedes this return on its path",
+				"this return is reached without the recursion into "+es(descents[0].Args[0])+": the declarations of the underlying type (and what it needs) are dropped for the inputs that take this path, while the generated text still mentions them")
+			return true
+		})
+	}
+	return n
+}
